@@ -37,11 +37,12 @@ variable {α : Type} [Add α] [Mul α] [Div α] [OfNat α 0] [OfNat α 1] [OfNat
 
 def wOf (d : Dict α) (k : Nat) : α := (d.get? k).getD 0
 
-/-- `AggregateGraph.similarity`; `none` = `-inf` -/
+/-- `AggregateGraph.similarity`; `none` = `-inf`.  `a`, `b`, `den` are C doubles (repaired code: they were floats and
+    under / overflowed on weights of wide dynamic range), the result is stored in a float -/
 def similarity (round32 : α → α) (g : AggGraph α) (node1 node2 : Nat) : Option α :=
-  let a := round32 (wOf g.outW node1 * wOf g.inW node2)
-  let b := round32 (wOf g.outW node2 * wOf g.inW node1)
-  let den := round32 (a + b)
+  let a := wOf g.outW node1 * wOf g.inW node2
+  let b := wOf g.outW node2 * wOf g.inW node1
+  let den := a + b
   if (0 : α) < den then some (round32 (2 * getEntry g.nb node1 node2 / den)) else none
 
 /-- `sim > max_sim` with `none` = `-inf` -/
@@ -55,17 +56,18 @@ def simEq : Option α → Option α → Bool
   | none, none => true
   | _, _ => false
 
-/-- the loop over the neighbours: `(nearest_neighbor, max_sim)`; `nearest_neighbor` starts uninitialised -/
-def nearest (round32 : α → α) (g : AggGraph α) (node : Nat) (nbrs : List Nat) :
-    Except PyErr (Option Nat × Option α) :=
-  nbrs.foldlM (fun (st : Option Nat × Option α) neighbor =>
-    let sim := similarity round32 g node neighbor
-    if simGt sim st.2 then pure (some neighbor, sim)
-    else if simEq sim st.2 then
-      match st.1 with
-      | some nn => pure (some (min neighbor nn), st.2)
-      | none => throw .valueError        -- reads an uninitialised C variable
-    else pure st) (none, none)
+/-- one neighbour of the scan: `if sim > max_sim: … elif sim == max_sim: nearest_neighbor = min(…)` -/
+def scanStep (round32 : α → α) (g : AggGraph α) (node : Nat) (st : Nat × Option α) (neighbor : Nat) :
+    Nat × Option α :=
+  let sim := similarity round32 g node neighbor
+  if simGt sim st.2 then (neighbor, sim)
+  else if simEq sim st.2 then (min neighbor st.1, st.2)
+  else st
+
+/-- the loop over the neighbours: `(nearest_neighbor, max_sim)`.  The first neighbour initialises
+    `nearest_neighbor` (repaired code: it was read uninitialised when every similarity was `-inf`) -/
+def nearest (round32 : α → α) (g : AggGraph α) (node : Nat) (k : Nat) (ks : List Nat) : Nat × Option α :=
+  ks.foldl (scanStep round32 g node) (k, similarity round32 g node k)
 
 /-- Python's `max(a, b)` on heights -/
 def maxH (a b : HInf α) : HInf α := if a < b then b else a
@@ -73,6 +75,13 @@ def maxH (a b : HInf α) : HInf α := if a < b then b else a
 /-- height of cluster `c` in the rows written so far (`dendrogram[c - n][2]`), for a merged cluster -/
 def heightOf (n : Nat) (rows : List (Row (HInf α))) (c : Nat) (dflt : HInf α) : HInf α :=
   if c ≥ n then ((rows[c - n]?).map (·.h)).getD dflt else dflt
+
+/-- `1. / max_sim if max_sim > 0 else inf` (repaired code: a similarity `0` or `-inf` — null weights — was a
+    ZeroDivisionError or the height `-0.0`) -/
+def invSim (ms : Option α) : HInf α :=
+  match ms with
+  | some x => if (0 : α) < x then .fin (1 / x) else .inf
+  | none => .inf
 
 /-- `height = 1 / max_sim`, then `height = max(height, dendrogram[cluster - n][2])` for the two merged clusters:
     a merge is never written below the merges it contains -/
@@ -98,32 +107,28 @@ def chainStep (round32 : α → α) (n : Nat) (st : PState α) : Except PyErr (O
     match st.g.nb.get? node with
     | none => .error .keyError
     | some rowNode =>
-      let nbrs := rowNode.keys.filter (· != node)
-      if nbrs.isEmpty then
+      match rowNode.keys.filter (· != node) with
+      | [] =>
         match st.g.sizes.get? node with
         | none => .error .keyError
         | some sz =>
           .ok (some { st with chain := rest, comps := st.comps ++ [(node, sz)],
                               g := { st.g with sizes := st.g.sizes.erase node } })
-      else
-        match nearest round32 st.g node nbrs with
-        | .error e => .error e
-        | .ok (some nn, some ms) =>
-          match rest with
-          | last :: rest' =>
-            if last == nn then
-              if ms == (0 : α) then .error .zeroDivision
-              else
-                match st.g.sizes.get? node, st.g.sizes.get? nn with
-                | some s1, some s2 =>
-                  .ok (some { st with chain := rest',
-                                      rows := st.rows ++ [{ i := node, j := nn, h := clampHeight n st.rows (.fin (1 / ms)) node nn,
-                                                             s := s1 + s2 }],
-                                      g := st.g.merge node nn })
-                | _, _ => .error .keyError
-            else .ok (some { st with chain := nn :: node :: last :: rest' })
-          | [] => .ok (some { st with chain := [nn, node] })
-        | .ok _ => .error .valueError
+      | k :: ks =>
+        let nn := (nearest round32 st.g node k ks).1
+        let ms := (nearest round32 st.g node k ks).2
+        match rest with
+        | last :: rest' =>
+          if last == nn then
+            match st.g.sizes.get? node, st.g.sizes.get? nn with
+            | some s1, some s2 =>
+              .ok (some { st with chain := rest',
+                                  rows := st.rows ++ [{ i := node, j := nn, h := clampHeight n st.rows (invSim ms) node nn,
+                                                         s := s1 + s2 }],
+                                  g := st.g.merge node nn })
+            | _, _ => .error .keyError
+          else .ok (some { st with chain := nn :: node :: last :: rest' })
+        | [] => .ok (some { st with chain := [nn, node] })
 
 /-- both `while` loops; `none` = out of fuel -/
 def chainLoop (round32 : α → α) (n : Nat) : Nat → PState α → Except PyErr (Option (PState α))
